@@ -609,6 +609,201 @@ def path_obs(rep, rng, kind, params, t, mode, o, stats):
     return (True, L, pk) if t2 == t else (False, 1.0, 0.0)
 
 
+# ------------------------------------------------- Path.curvature at joints
+def kind_of(seg):
+    return {'Line': 'line', 'QuadraticBezier': 'quad', 'CubicBezier': 'cubic', 'Arc': 'arc'}[type(seg).__name__]
+
+
+def end_dirs(seg):
+    """(direction at t=0, direction at t=1) from the exact derivative (Beziers) or Arc.derivative"""
+    k = kind_of(seg)
+    if k == 'arc':
+        a, b = complex(seg.derivative(0.0)), complex(seg.derivative(1.0))
+        return (a / abs(a) if a else None), (b / abs(b) if b else None)
+    ps = params_of(k, seg)
+    return fdir(bez_deriv_exact(ps, 0, 1)), fdir(bez_deriv_exact(ps, 1, 1))
+
+
+def joint_paths(rng, n):
+    """paths with smooth joints (pieces of a split cubic / quadratic / arc, collinear lines, a line
+    tangent to the following or preceding curve, smooth closed loops) and with genuine kinks.
+    Yields (name, [segments])"""
+    from svgpathtools import Line, QuadraticBezier, CubicBezier, Arc
+    def pt(sc=10.0):
+        return complex(rng.uniform(-sc, sc), rng.uniform(-sc, sc))
+    def dpt():
+        return dyc(rng, lo=-16, hi=16)
+    def cubic():
+        return CubicBezier(pt(), pt(), pt(), pt())
+    shapes = ['split-cubic', 'split-cubic3', 'collinear-lines', 'collinear-lines-dyadic', 'line-cubic', 'cubic-line',
+              'closed-smooth-cubics', 'closed-polygon', 'kink-lines', 'kink-cubic-line', 'kink-cubics-closed',
+              'split-quad', 'split-arc', 'line-quad', 'quad-line', 'arc-arc-circle', 'cubic-arc-mixed']
+    for i in range(n):
+        sh = shapes[i % len(shapes)]
+        t0 = rng.choice([0.5, 0.25, 0.75, rng.uniform(0.1, 0.9)])
+        if sh == 'split-cubic':
+            segs = list(cubic().split(t0))
+        elif sh == 'split-cubic3':
+            a, b = cubic().split(t0)
+            b1, b2 = b.split(rng.choice([0.5, rng.uniform(0.2, 0.8)]))
+            segs = [a, b1, b2]
+        elif sh in ('collinear-lines', 'collinear-lines-dyadic'):
+            a = dpt() if sh.endswith('dyadic') else pt()
+            v = heading(rng, i % 8, True) if sh.endswith('dyadic') else pt(3)
+            l1, l2 = rng.choice([1, 2, 0.5, 3]), rng.choice([1, 2, 0.5, 4])
+            b = a + v * l1
+            c = b + (b - a) * l2
+            segs = [Line(a, b), Line(b, c)]
+            if rng.random() < 0.5:
+                segs.append(Line(c, c + (c - b) * 0.5))
+        elif sh == 'line-cubic':
+            a, b = pt(), pt()
+            segs = [Line(a, b), CubicBezier(b, b + (b - a) * rng.uniform(0.2, 2), pt(), pt())]
+        elif sh == 'cubic-line':
+            c = cubic()
+            segs = [c, Line(c.end, c.end + (c.end - c.control2) * rng.uniform(0.2, 2))]
+        elif sh == 'closed-smooth-cubics':
+            p, q, v, w = pt(), pt(), pt(4), pt(4)
+            segs = [CubicBezier(p, p + v, q - w, q), CubicBezier(q, q + w, p - v, p)]
+        elif sh == 'closed-polygon':
+            a, b, c = pt(), pt(), pt()
+            segs = [Line(a, b), Line(b, c), Line(c, a)]
+        elif sh == 'kink-lines':
+            a, b = pt(), pt()
+            c = b + (b - a) * cmath.exp(1j * rng.choice([1, -1]) * rng.uniform(0.3, 2.8))
+            segs = [Line(a, b), Line(b, c)]
+        elif sh == 'kink-cubic-line':
+            c = cubic()
+            d = (c.end - c.control2) * cmath.exp(1j * rng.choice([1, -1]) * rng.uniform(0.3, 2.8))
+            segs = [c, Line(c.end, c.end + d)] if rng.random() < 0.5 else [Line(c.start - d, c.start), c]
+        elif sh == 'kink-cubics-closed':
+            p, q = pt(), pt()
+            segs = [CubicBezier(p, pt(), pt(), q), CubicBezier(q, pt(), pt(), p)]
+        elif sh == 'split-quad':
+            segs = list(QuadraticBezier(pt(), pt(), pt()).split(t0))
+        elif sh == 'split-arc':
+            r = rng.uniform(1, 5)
+            arc = Arc(pt(), complex(r, r * rng.choice([1, 1, rng.uniform(0.5, 2)])), rng.choice([0.0, 30.0, rng.uniform(-90, 90)]),
+                      rng.random() < 0.5, rng.random() < 0.5, pt())
+            segs = list(arc.split(t0))
+        elif sh == 'line-quad':
+            a, b = pt(), pt()
+            segs = [Line(a, b), QuadraticBezier(b, b + (b - a) * rng.uniform(0.2, 2), pt())]
+        elif sh == 'quad-line':
+            q = QuadraticBezier(pt(), pt(), pt())
+            segs = [q, Line(q.end, q.end + (q.end - q.control) * rng.uniform(0.2, 2))]
+        elif sh == 'arc-arc-circle':
+            c0, r = pt(), rng.uniform(1, 5)
+            a0, a1, a2 = sorted(rng.uniform(0, 2 * math.pi) for _ in range(3))
+            P = [c0 + r * cmath.exp(1j * a) for a in (a0, a1, a2)]
+            segs = [Arc(P[0], complex(r, r), 0.0, (a1 - a0) > math.pi, True, P[1]),
+                    Arc(P[1], complex(r, r), 0.0, (a2 - a1) > math.pi, True, P[2])]
+        else:   # a cubic leaving an arc tangentially (later segment is a cubic) and an arc after a line
+            a0 = pt()
+            arc = Arc(a0, complex(3, 3), 0.0, False, True, a0 + complex(2, 2))
+            d = complex(arc.derivative(1.0))
+            segs = [arc, CubicBezier(arc.end, arc.end + d / abs(d) * rng.uniform(0.5, 2), pt(), pt())]
+        yield sh, segs
+
+
+def seg_hex(seg):
+    k = kind_of(seg)
+    ps = params_of(k, seg)
+    if k == 'arc':
+        return [k, [common.chex(ps[0]), common.chex(ps[1]), common.fhex(ps[2]), ps[3], ps[4], common.chex(ps[5])]]
+    return [k, [common.chex(q) for q in ps]]
+
+
+def segs_from_hex(lst):
+    out = []
+    cx = lambda a: complex(float.fromhex(a[0]), float.fromhex(a[1]))
+    for k, ps in lst:
+        if k == 'arc':
+            out.append(build(k, [cx(ps[0]), cx(ps[1]), float.fromhex(ps[2]), ps[3], ps[4], cx(ps[5])]))
+        else:
+            out.append(build(k, [cx(q) for q in ps]))
+    return out
+
+
+def check_joints(rep, name, segs, stats):
+    """Path.curvature at T = 0, 1 and exactly on every joint: the finite curvature of the segment
+    T2t resolves to when the joint is smooth (same point, unit tangents equal to within np.isclose:
+    the contract of joins_smoothly_with), inf only at genuine kinks"""
+    import numpy as np
+    from svgpathtools import Path
+    path = Path(*segs)
+    n = len(segs)
+    closed = path.end == path.start
+    Ts = [('T=0', 0), ('T=1', 1), ('T=0.0', 0.0), ('T=1.0', 1.0)]
+    for i in range(n - 1):
+        Ts.append(('t2T(%d,1)' % i, path.t2T(i, 1)))
+        Ts.append(('t2T(%d,0)' % (i + 1), path.t2T(i + 1, 0)))
+    dirs = [end_dirs(sg) for sg in segs]
+    for label, T in Ts:
+        rp = {'kind': 'path-joint', 'shape': name, 'segments': [seg_hex(sg) for sg in segs],
+              'T': common.fhex(T), 'label': label, 'repr': '%r .curvature(%r) [%s]' % (path, T, label),
+              'how': './check C15 --replay <this file>'}
+        try:
+            k, t = path.T2t(T)
+            val = float(path.curvature(T))
+        except Exception as e:
+            rep.violation('C15: Path.curvature(%r) raised %s on %s' % (T, type(e).__name__, name),
+                          dict(rp, error=repr(e)), key='path-curvature-raises')
+            continue
+        stats['joint_evals'] += 1
+        t = float(t)
+        # which joint (if any) the code has to examine, per its own rule
+        jt = None
+        if np.isclose(t, 0) and (k != 0 or closed):
+            jt = ((k - 1) % n, k)
+        elif np.isclose(t, 1) and (k != n - 1 or closed):
+            jt = (k, (k + 1) % n)
+        seg = segs[k]
+        kk = kind_of(seg)
+        if kk == 'arc':
+            expect = float(seg.curvature(t))
+        elif kk == 'line':
+            expect = 0.0
+        else:
+            ps = params_of(kk, seg)
+            expect = kappa_exact(bez_deriv_exact(ps, t, 1), bez_deriv_exact(ps, t, 2))
+        tol = 1e-6 * (abs(expect) + 1e-3)
+        if jt is None:
+            stats['joint_open_ends'] += 1
+            if not (abs(val - expect) <= tol):
+                rep.violation('C15: Path.curvature(%r) = %r at an end of an open path, the segment\'s curvature is %r'
+                              % (T, val, expect), rp, key='path-curvature-end-value')
+            continue
+        a, b = jt
+        da, db = dirs[a][1], dirs[b][0]
+        same_pt = segs[a].end == segs[b].start
+        if da is None or db is None:
+            continue
+        dev = abs(da - db)
+        if same_pt and dev <= 1e-9:
+            stats['joint_smooth'] += 1
+            later = type(segs[b]).__name__
+            if math.isinf(val):
+                if later in ('QuadraticBezier', 'Arc'):
+                    rep.violation('C15: Path.curvature(%r) = inf at a SMOOTH joint (%s, unit tangents differ by %.1e): '
+                                  '%s.joins_smoothly_with compares the unit tangents with error=0 (exact equality)'
+                                  % (T, name, dev, later), dict(rp, later=later),
+                                  key='path-curvature-inf-at-smooth-quad-arc-joint')
+                else:
+                    rep.violation('C15: Path.curvature(%r) = inf at a SMOOTH joint (%s; resolved to segment %d, t=%r; '
+                                  'unit tangents differ by %.1e); expected the finite curvature %r'
+                                  % (T, name, k, t, dev, expect), dict(rp, later=later),
+                                  key='path-curvature-inf-at-smooth-joint')
+            elif not (abs(val - expect) <= tol):
+                rep.violation('C15: Path.curvature(%r) = %r at a smooth joint (%s), the curvature of segment %d there is %r'
+                              % (T, val, name, k, expect), rp, key='path-curvature-joint-value')
+        elif (not same_pt) or dev > 0.05:
+            stats['joint_kink'] += 1
+            if not math.isinf(val):
+                rep.violation('C15: Path.curvature(%r) = %r at a kink (%s: directions %r -> %r), expected inf'
+                              % (T, val, name, da, db), rp, key='path-curvature-finite-at-kink')
+
+
 def case_term(kind, params, t, o, pobs, singular=False, generic=False):
     seg = o['seg']
     (su, u, _), (sn, n, _), (sk, k, _) = o['ut'], o['nm'], o['k']
@@ -654,10 +849,23 @@ def run(rep, tier, seed, replay=None):
         if info['agree_failed']:
             n_reg *= 4
         todo = []
-        if replay:
+        jstats = {k: 0 for k in ('joint_paths', 'joint_evals', 'joint_smooth', 'joint_kink', 'joint_open_ends')}
+        if replay and json.load(open(replay))['replay'].get('kind') == 'path-joint':
+            r = json.load(open(replay))['replay']
+            check_joints(rep, r.get('shape', 'replay'), segs_from_hex(r['segments']), jstats)
+        elif replay:
             r = json.load(open(replay))['replay']
             todo.append(params_from_replay(r))
         else:
+            for name, segs in joint_paths(common.mkrng(seed, 'C15-joints'), 170 if tier == 'quick' else 1700):
+                jstats['joint_paths'] += 1
+                try:
+                    check_joints(rep, name, segs, jstats)
+                except Exception:
+                    import traceback
+                    rep.violation('C15: joint check crashed', {'kind': 'harness-exception', 'shape': name,
+                                                              'traceback': traceback.format_exc()[-1500:]},
+                                  found_input=False, key='harness-exception')
             # corpus: the design's witness first
             todo.append(('cubic', [0j, 0j, -1 + 1j, -2 + 0j], 0.0, 'corpus'))
             todo.append(('cubic', [2 + 0j, 1 + 1j, 0j, 0j], 1.0, 'corpus'))
@@ -734,7 +942,9 @@ def run(rep, tier, seed, replay=None):
                            '20x; tiny-derivative regular cases: segments at scale 1e-9..1e-6, scaled(1e-9) copies (all kinds), Beziers with a '
                            'control point 1e-12..1e-9 from an end point in 8 directions; distinct (segment, t) pairs counted; each case: 3 observations compared inside Coq with the model '
                            'in 120-bit floats (1e-9), the property on the implementation (modulus, quotient at t / t+-1e-6 with '
-                           'sign, normal, curvature formula, circle 1/r), 5 transforms incl. scaled(1e-9), Path wrappers')
+                           'sign, normal, curvature formula, circle 1/r), 5 transforms incl. scaled(1e-9), Path wrappers; Path.curvature at T=0, 1 and exactly on the joints of paths with '
+                           'smooth joints (split cubic/quad/arc, collinear lines, tangent line-curve, closed smooth loops) and kinks')
+        stats.update(jstats)
         rep.cov['input_distribution'] = {'kinds': kinds, 'modes': modes, 'stats': stats}
         rep.cov['samples'] = [{'segment': str(m[4]['seg']), 't': m[2], 'unit_tangent': str(m[4]['ut'][1]),
                                'curvature': str(m[4]['k'][1])} for m in meta[:3]]
